@@ -98,8 +98,8 @@ class C19(engine.Property):
     max_steps = 60
     nontermination_is_violation = True
     budget = {
-        "quick": {"runs": 40000, "wall_cap_s": 600},
-        "thorough": {"runs": 3000000, "wall_cap_s": 3000},
+        "quick": {"runs": 120000, "wall_cap_s": 600},
+        "thorough": {"runs": 5000000, "wall_cap_s": 5400},
     }
     rule = (
         "one evaluation = one seeded history of Universe.laws / UniverseLaws.applies_to "
